@@ -22,10 +22,10 @@ EXTENDS VerifCommon
 CONSTANTS Names, StaticKey, RegexOrder, Match, Hot, Cold, HotKeys, InitKeys, MaxReloads, MaxInc, SimDepth,
           Pubs
 
-VARIABLES cm, live, inflight, nseq, ninc, nreload, closedIncs, hist,   \* PathManager.tla
+VARIABLES cm, live, inflight, nseq, ninc, nreload, closedIncs, busy, hist,   \* PathManager.tla
           pst,       \* name -> Path state record (Path!NewPath shape) or Path!Dead
           lastEv     \* name -> events of the last step that touched the name
-pmvars == <<cm, live, inflight, nseq, ninc, nreload, closedIncs, hist>>
+pmvars == <<cm, live, inflight, nseq, ninc, nreload, closedIncs, busy, hist>>
 vars == <<pmvars, pst, lastEv>>
 
 PM == INSTANCE PathManagerMC
